@@ -570,7 +570,7 @@ class Tr:
             if s.it.k == 'var' and self.typeof(s.it) not in ('LZ',):
                 pass
             x = self.pat(s.pat)
-            if s.pat.k == 'pvar': self.ty[s.pat.name] = 'Z'
+            if s.pat.k == 'pvar': self.ty[s.pat.name] = self.cfg.get('loop_var_type', 'Z')
             st = vs[0] if len(vs) == 1 else "'(%s)" % ', '.join(vs)
             stv = vs[0] if len(vs) == 1 else '(%s)' % ', '.join(vs)
             body = self.stmts(s.body, stv)
@@ -725,11 +725,25 @@ def preprocess(ast, cfg):
         raise TranslationError('let %s not found' % nm)
     return ast
 
+def desugar_inplace(ast):
+    """`x.double_in_place();` as a statement (ark-ec mutating API) becomes the assignment `x = x.double()`"""
+    out = []
+    for s in ast:
+        if s.k == 'exprstmt' and s.e.k == 'mcall' and s.e.name == 'double_in_place' and s.e.e.k == 'var':
+            out.append(N('assign', lhs=s.e.e, op='=', rhs=N('mcall', e=s.e.e, name='double', args=[])))
+        elif s.k == 'exprstmt' and s.e.k == 'if':
+            out.append(N('exprstmt', e=N('if', c=s.e.c, t=desugar_inplace(s.e.t), f=desugar_inplace(s.e.f) if s.e.f else s.e.f)))
+        elif s.k == 'for':
+            d = dict(s.__dict__); d['body'] = desugar_inplace(s.body); d.pop('k'); out.append(N('for', **d))
+        else: out.append(s)
+    return out
+
 def gen_one(name, path, fn, kw, cfg):
     src = strip_comments(open(os.path.join(REPO, path)).read())
     src = re.split(r'#\[cfg\((?:all\()?test', src)[0]
     sig, body = find_fn(src, fn, kw.get('impl_hint'), kw.get('nth', 0))
     ast = preprocess(parse_body(body), cfg)
+    if cfg.get('inplace'): ast = desugar_inplace(ast)
     tr = Tr(cfg)
     if cfg.get('selfty'): tr.ty['self'] = cfg['selfty']
     val = tr.stmts(ast, cfg.get('k'))
